@@ -33,7 +33,8 @@ PROP = "C19"
 LEVEL = "exploration"
 RULE = (
     "Part 'hist': Hypothesis-generated histories (<= max_steps ops) over 1-5 generated component classes "
-    "(names sharing prefixes / differing only in case / looking like a class hash, same name in two modules, "
+    "(names sharing prefixes / differing only in case / looking like a class hash / with non-ASCII letters "
+    "(Latin-1, Cyrillic, CJK, non-BMP: URLs announced percent-encoded), same name in two modules, "
     "unique import path per case; js/css absent, empty, whitespace-only, plain, padded with whitespace, rich "
     "(non-ASCII, <, &, quotes), shared between classes, or from js_file/css_file; optional subclassing, nested "
     "child component, Media files, get_js_data/get_css_data variables) with ops define / render(set of classes; "
@@ -69,6 +70,12 @@ CT = {"js": "text/javascript", "css": "text/css"}
 KINDS = ("js", "css")
 NAMES = ["Card", "CardList", "Card_", "Card_1a2b3c", "card", "C", "Table", "Tabl", "_Card", "CardCard", "Card_js", "js",
          "L" * 236 + "ongA", "L" * 236 + "ongB"]  # two very long names with a long common prefix (legal identifiers)
+# Class names that are legal (NFKC-stable) Python identifiers with non-ASCII letters: the property holds "whatever the
+# class is named". Latin-1 supplement / Cyrillic / CJK / non-BMP (2-, 3- and 4-byte UTF-8), two names differing only in
+# case, a Cyrillic homoglyph of "Card" and a name that extends "Card" - their URLs are announced percent-encoded.
+NON_ASCII_NAMES = ["\u00dcbersicht", "\u00fcbersicht", "\u041a\u0430\u0440\u0442\u0430", "\u5361\u7247", "Card\u00e9", "C\u0430rd", "\U00010400bc"]
+# name pool of the hist part; False = ASCII names only (the widened domain switched off)
+NON_ASCII_CLASS_NAMES = True
 NON_GET = ["POST", "PUT", "DELETE", "PATCH", "OPTIONS", "HEAD", "TRACE"]
 
 _case_no = [0]
@@ -580,6 +587,7 @@ class Stats:
     def __init__(self):
         self.urls_checked = 0
         self.vars_urls = 0
+        self.non_ascii_urls = 0
         self.foreign_urls = 0
         self.probes = 0
         self.renders = 0
@@ -624,6 +632,15 @@ def check_render(ctx, html, step, st, fails, probe=None):
         wf = classify(ctx, u)
         tag = "step%d/announced-%s" % (step, how)
         if wf is None:
+            # announced under the endpoint prefix, yet (decoded as a server decodes a request path) not
+            # <hash of a class of this case>[.<input>].<js|css>: it must at least be served - if it is not, the render
+            # announced a URL the endpoint does not know. (Served nevertheless: the harness cannot tell whose code to expect.)
+            resp = send("GET", u)
+            if resp.status_code != 200:
+                fails.append(("%s: GET %r announced by the render that just finished -> %d; decoded path %r is not "
+                              "<hash>[.<input>].<kind> of any class of this case (hashes %r)"
+                              % (tag, u, resp.status_code, split_path(u), sorted(map(str, ctx.hash_to_idx))[:6]), "announced-404"))
+                return found
             raise HarnessProblem("cannot attribute announced URL %r to a class of this case" % (u,))
         idx, k2, inp = wf
         if k2 != kind:
@@ -632,13 +649,15 @@ def check_render(ctx, html, step, st, fails, probe=None):
         st.urls_checked += 1
         if inp:
             st.vars_urls += 1
+        if not split_path(u).isascii():
+            st.non_ascii_urls += 1
         st.classes_checked.add(idx)
         found.append((u, idx, kind))
         fails.extend(judge(ctx, "GET", u, True, tag))
         if fails:
             return found
     if probe is not None and endpoint:
-        announced = {e[0] for e in endpoint}
+        announced = {split_path(e[0]) for e in endpoint}  # decoded, as the server sees them
         for u, kind, how in [endpoint[probe % len(endpoint)]]:
             for tag, method, raw in battery(ctx, u, valid_inputs):
                 st.probes += 1
@@ -855,7 +874,9 @@ def hist_strategy(max_steps):
     from hypothesis import strategies as st
 
     variant = st.sampled_from([None, "empty", "ws", "plain", "plain", "plain", "padded", "padded", "rich", "rich", "same", "file"])
-    pair = st.tuples(st.sampled_from(NAMES), st.integers(0, 1))
+    # 14 ASCII + 7 non-ASCII names: a third of the name draws is non-ASCII
+    pool = (NAMES + NON_ASCII_NAMES) if NON_ASCII_CLASS_NAMES else NAMES
+    pair = st.tuples(st.sampled_from(pool), st.integers(0, 1))
     ident = {n: st.lists(pair, min_size=n, max_size=n, unique=True) for n in range(1, 6)}
     ncls = st.sampled_from([1, 2, 2, 2, 3, 3, 4, 5])
     lo = st.sampled_from([1, 4, 4, 8, 8, 12])
@@ -946,6 +967,10 @@ def _labels(case, st):
             lb.add("same_name_two_modules")
         if any(a != b and b.startswith(a) for a in names for b in names):
             lb.add("prefix_sharing_names")
+        if any(not n.isascii() for n in names):
+            lb.add("has_non_ascii_class_name")
+        if st.non_ascii_urls:
+            lb.add("checked_url_of_non_ascii_named_class")
         if any(o["op"] == "clear" for o in case["ops"]):
             lb.add("has_clear")
         if st.evictions:
